@@ -48,6 +48,7 @@ class State:
         self.iters: Dict[int, tuple] = {}     # iid -> (VList, position term)
         self.guards: List[z3.BoolRef] = []    # local guards of short-circuit evaluation (for safety obligations)
         self.trace: List[str] = []
+        self.bidx: set = set()               # indices into pc that are branch conditions (not facts)
 
     def fork(self) -> 'State':
         s = State()
@@ -59,6 +60,7 @@ class State:
         s.iters = dict(self.iters)
         s.guards = list(self.guards)
         s.trace = list(self.trace)
+        s.bidx = set(self.bidx)
         return s
 
     @property
@@ -72,6 +74,11 @@ class State:
             if z3.is_true(f):
                 continue
             self.pc.append(f)
+
+    def assume_branch(self, cond):
+        """record a branch condition of a fork (kept apart from facts so that outcomes can be merged)"""
+        self.bidx.add(len(self.pc))
+        self.pc.append(cond)
 
     def lookup(self, name: str):
         fid = self.cur
